@@ -290,6 +290,11 @@ func solveOne(o *Obligation, opts SolveOpts) {
 		}()
 	}
 	answers := map[string]string{solvers[0].name: ans}
+	if ans == want {
+		// (thorough tier) already decided by the first solver; the others are
+		// consulted for disagreement only
+		o.Status = "discharged"
+	}
 	for range list {
 		r := <-rc
 		o.Time += r.secs
@@ -450,6 +455,11 @@ func filterQuantified(pc []*Term, goal *Term) []*Term {
 		for h := range raw {
 			goalHeaps[heapBaseName(h)] = true
 		}
+	}
+	if len(goalHeaps) == 0 {
+		// a goal without heap reads (e.g. "this path is infeasible") depends on the
+		// path facts themselves: nothing can be judged irrelevant
+		return pc
 	}
 	var out []*Term
 	// keep weakens a hypothesis: an irrelevant quantified conjunct (or
